@@ -1627,3 +1627,8 @@ mutant("c02-shape-kernel-global-max", "C02", (N, """        a = scalar(a)
         return np.minimum(a, b)""", """        a = scalar(a)
         b = scalar(b)
         return np.minimum(a, b).min()"""), "V9/Minimum.compute")
+
+# ------------------------------------------------------------------------------------------ O-sem cascade semantics (C12)
+mutant("c12-sem-previous-from-first-row", "C12", (V, "self.previous_value = np.take(self.value, -1).astype(float)", "self.previous_value = np.take(self.value, 0).astype(float)"), "OutputVariable.defuzzify")
+mutant("c12-sem-filler-from-stored-attribute", "C12", (V, "                        value_i[...] = previous_value  # type:ignore", "                        value_i[...] = self.previous_value  # type:ignore"), "OutputVariable.defuzzify")
+mutant("c12-sem-default-fills-everything", "C12", (V, "            value[np.isnan(value)] = self.default_value  # type: ignore", "            value[...] = np.where(np.isnan(value), self.default_value, self.default_value)  # type: ignore"), "OutputVariable.defuzzify")
